@@ -34,6 +34,10 @@ def _tuplify(x):
 
 
 def _lang(cfg):
+    if cfg["fixture"] == "family":
+        from vf.fixtures import family
+
+        return [_tuplify(s) for s in OL.language(family.get(cfg["index"]), cfg["max_depth"])]
     fx = synth.fixture(cfg["fixture"])
     if cfg.get("classes"):
         class V:
@@ -131,6 +135,14 @@ def obligations(tier: str):
     for d in (2, 3):
         add(f"grow_f12_d{d}", fixture="f12", creator="grow", max_depth=d)
         add(f"pigrow_f12_d{d}", fixture="f12", creator="pi", max_depth=d)
+    # generated hierarchies (vf/fixtures/family.py): every N-th member with a small bounded language
+    from vf.fixtures import family
+
+    for k in family.interesting(3, 30, every=8 if T else 40):
+        for d in (2, 3):
+            add(f"grow_family{k}_d{d}", fixture="family", index=k, creator="grow", max_depth=d, timeout=200)
+        if T:
+            add(f"pigrow_family{k}_d3", fixture="family", index=k, creator="pi", max_depth=3, timeout=200)
     add("pigrow_f3_d3", fixture="f3", creator="pi", max_depth=3)
     add("pigrow_f4_d3", fixture="f4", creator="pi", max_depth=3)
     return [o for o in obs if o is not None]
